@@ -515,9 +515,29 @@ def _ignore_excluded(exclude, keep=None):
 
 
 def _sync_job_workspaces(
-    src, dst, strategy, exclude, copy, copytree, recursive=True, deep=False, subdir=""
+    src,
+    dst,
+    strategy,
+    exclude,
+    copy,
+    copytree,
+    recursive=True,
+    deep=False,
+    subdir="",
+    skip=(),
 ):
-    """Synchronize two job workspaces file by file, following the provided strategy."""
+    """Synchronize two job workspaces file by file, following the provided strategy.
+
+    The names listed in ``skip`` (the files managed by signac itself) are skipped
+    by their exact name at the top level of the job directory only; the
+    ``exclude`` patterns are matched with :func:`re.match` at every level.
+    """
+
+    def _excluded(fn):
+        if not subdir and fn in skip:
+            return True
+        return bool(exclude) and any(re.match(p, fn) for p in exclude)
+
     # Do not hide any names: the default of dircmp ignores 'RCS', 'CVS', 'tags', '.git', ...
     if deep:
         diff = _dircmp_deep(src.fn(subdir), dst.fn(subdir), ignore=[])
@@ -525,7 +545,7 @@ def _sync_job_workspaces(
         diff = dircmp(src.fn(subdir), dst.fn(subdir), ignore=[])
 
     for fn in diff.left_only:
-        if exclude and any([re.match(p, fn) for p in exclude]):
+        if _excluded(fn):
             logger.debug(f"File named '{fn}' is skipped (excluded).")
             continue
         fn_src = os.path.join(src.path, subdir, fn)
@@ -537,7 +557,7 @@ def _sync_job_workspaces(
         else:
             logger.warning(f"Skip directory '{fn_src}'.")
     for fn in diff.diff_files:
-        if exclude and any([re.match(p, fn) for p in exclude]):
+        if _excluded(fn):
             logger.debug(f"File named '{fn}' is skipped (excluded).")
             continue
         if strategy is None:
@@ -668,9 +688,11 @@ def sync_jobs(
         exclude = [exclude]
     else:
         exclude = list(exclude)  # do not modify the caller's list
-    exclude.append(src.FN_STATE_POINT)
+    # The state point and (unless it is copied like a file) the document are not
+    # data files: they are skipped by name, not by pattern.
+    skip = [src.FN_STATE_POINT]
     if doc_sync != DocSync.COPY:
-        exclude.append(src.FN_DOCUMENT)
+        skip.append(src.FN_DOCUMENT)
 
     if type(dry_run) is _FileModifyProxy:
         proxy = dry_run
@@ -708,6 +730,7 @@ def sync_jobs(
             copytree=proxy.copytree,
             recursive=recursive,
             deep=deep,
+            skip=skip,
         )
 
     if doc_sync not in (DocSync.NO_SYNC, DocSync.COPY):
